@@ -79,7 +79,7 @@ theorem gmd_eq (m n p : Nat) (sb : K) (Ucols : Array (Array K)) (S : Array K) (V
   simp only [this, if_false]
   rfl
 
-theorem initR_ok (m n p : Nat) (S : Array K) (hp : 1 ≤ p) (hpm : p ≤ m) (hpn : p ≤ n) (hS : S.size = p) :
+theorem initR_ok (m n p : Nat) (S : Array K) (hp : 1 ≤ p) (hpm : p ≤ m) (hpn : p ≤ n) (hS : p ≤ S.size) :
     ∃ R0, initR m n p S = .ok R0 ∧ R0.size = m ∧ (∀ i, i < m → (cget R0 i).size = n) ∧
       (∀ a b, entryRows R0 a b ≠ 0 → a = p - 1 ∧ b = p - 1) := by
   have hrep : ∀ i, i < m → cget (Array.replicate m (Array.replicate n (0 : K))) i = Array.replicate n 0 := by
@@ -118,10 +118,10 @@ theorem initR_ok (m n p : Nat) (S : Array K) (hp : 1 ≤ p) (hpm : p ≤ m) (hpn
     · intro i hi; rw [hrep i hi]; simp
     · intro a b hne; exact absurd (hz a b) hne
 
-theorem init_shape (m n p : Nat) (R0 : Array (Array K)) (U : Mat K m m) (V : Mat K n n) (S : Fin p → K)
-    (hR0 : R0.size = m) (hR0row : ∀ i, i < m → (cget R0 i).size = n) :
+theorem init_shape (m n p q : Nat) (R0 : Array (Array K)) (U : Mat K m m) (V : Mat K n n) (S : Fin q → K)
+    (hpq : p ≤ q) (hR0 : R0.size = m) (hR0row : ∀ i, i < m → (cget R0 i).size = n) :
     Shape m n p (st0 p R0 (colsOf U) (Array.ofFn S) (colsOf V)) := by
-  refine ⟨by simp [st0], by simp [st0], hR0, hR0row, by simp [st0, colsOf], ?_, by simp [st0, colsOf], ?_,
+  refine ⟨by simpa [st0] using hpq, by simp [st0], hR0, hR0row, by simp [st0, colsOf], ?_, by simp [st0, colsOf], ?_,
     by simp [st0], by simp [st0]⟩
   · intro j hj
     show (cget (colsOf V) j).size = n
@@ -183,63 +183,67 @@ theorem orth_colsOf {m : Nat} (U : Mat K m m) (hU : (toM U)ᴴ * toM U = 1) :
     Fin.mk.injEq] at this
   exact this
 
-/-- ESTABLISHMENT: the initial state of the sweep satisfies the invariant for `k = 0` -/
-theorem init_inv (ι : ℝ →+* K) (m n : Nat) (R0 : Array (Array K)) (U : Mat K m m) (V : Mat K n n)
-    (S : Fin (min m n) → ℝ) (sb : ℝ) (hp : 0 < min m n)
-    (hU : (toM U)ᴴ * toM U = 1) (hV : (toM V)ᴴ * toM V = 1) (hS : ∀ i, 0 < S i)
-    (hprod : sb ^ (min m n) = ∏ i, S i)
-    (hR0 : ∀ a b, entryRows R0 a b ≠ 0 → a = min m n - 1 ∧ b = min m n - 1) :
-    Inv ι m n (min m n) (toM U * toM (sigmaMat (fun i => ι (S i))) * (toM V)ᴴ) (Sx S) sb 0
-      (absSt (st0 (min m n) R0 (colsOf U) (Array.ofFn (fun i => ι (S i))) (colsOf V))) := by
-  have hd : (absSt (st0 (min m n) R0 (colsOf U) (Array.ofFn (fun i => ι (S i))) (colsOf V))).d
+/-- the singular values beyond the first `p` replaced by zero -/
+def truncS {q : Nat} (p : Nat) (S : Fin q → ℝ) : Fin q → ℝ := fun i => if i.val < p then S i else 0
+
+theorem Sx_truncS {q : Nat} (p : Nat) (S : Fin q → ℝ) (b : Nat) :
+    Sx (truncS p S) b = if b < p then Sx S b else 0 := by
+  unfold Sx truncS
+  by_cases h : b < q <;> by_cases h' : b < p <;> simp [h, h']
+
+/-- ESTABLISHMENT: the initial state of the sweep satisfies the invariant for `k = 0`
+    (`p ≤ min m n` singular values in use; `A` = the rank-`p` truncation `U Σ_p Vᴴ`) -/
+theorem init_inv (ι : ℝ →+* K) (m n p : Nat) (R0 : Array (Array K)) (U : Mat K m m) (V : Mat K n n)
+    (S : Fin (min m n) → ℝ) (sb : ℝ) (hp : 0 < p) (hpmn : p ≤ min m n)
+    (hU : (toM U)ᴴ * toM U = 1) (hV : (toM V)ᴴ * toM V = 1) (hS : ∀ r, r < p → 0 < Sx S r)
+    (hprod : sb ^ p = ∏ r ∈ Finset.range p, Sx S r)
+    (hR0 : ∀ a b, entryRows R0 a b ≠ 0 → a = p - 1 ∧ b = p - 1) :
+    Inv ι m n p (toM U * toM (sigmaMat (fun i => ι (truncS p S i))) * (toM V)ᴴ) (Sx S) sb 0
+      (absSt (st0 p R0 (colsOf U) (Array.ofFn (fun i => ι (S i))) (colsOf V))) := by
+  have hd : (absSt (st0 p R0 (colsOf U) (Array.ofFn (fun i => ι (S i))) (colsOf V))).d
       = fun r => ι (Sx S r) := vget_ofFn ι S
-  have hpm : ∀ r, (absSt (st0 (min m n) R0 (colsOf U) (Array.ofFn (fun i => ι (S i))) (colsOf V))).perm r
-      = if r < min m n then r else 0 := nget_range _
-  have hip : ∀ r, (absSt (st0 (min m n) R0 (colsOf U) (Array.ofFn (fun i => ι (S i))) (colsOf V))).invperm r
-      = if r < min m n then r else 0 := nget_range _
+  have hpm : ∀ r, (absSt (st0 p R0 (colsOf U) (Array.ofFn (fun i => ι (S i))) (colsOf V))).perm r
+      = if r < p then r else 0 := nget_range _
+  have hip : ∀ r, (absSt (st0 p R0 (colsOf U) (Array.ofFn (fun i => ι (S i))) (colsOf V))).invperm r
+      = if r < p then r else 0 := nget_range _
+  have hpn : p ≤ n := le_trans hpmn (Nat.min_le_right m n)
   constructor
   · refine ⟨orth_colsOf U hU, orth_colsOf V hV, ?_, ?_, ?_, ?_, ?_, ?_⟩
     · intro b hb; omega
     · rw [Finset.range_zero, Finset.sum_empty, zero_add, hd]
-      exact svd_col ι U V S hV 0 (by omega)
+      have := svd_col ι U V (truncS p S) hV 0 (by omega)
+      rw [Sx_truncS, if_pos hp] at this
+      exact this
     · intro b _ hb
       rw [hd]
-      exact svd_col ι U V S hV b (by omega)
+      have := svd_col ι U V (truncS p S) hV b (by omega)
+      rw [Sx_truncS, if_pos hb] at this
+      exact this
     · intro b hb hbn
-      have := svd_col ι U V S hV b hbn
-      have hz : Sx S b = 0 := by
-        unfold Sx
-        have : ¬ b < min m n := by omega
-        simp [this]
-      rw [hz, map_zero, zero_smul] at this
+      have := svd_col ι U V (truncS p S) hV b hbn
+      rw [Sx_truncS, if_neg (by omega), map_zero, zero_smul] at this
       exact this
     · intro a b hne
       right; exact hR0 a b hne
     · intro j hj; omega
   · refine ⟨Sx S, fun q => congrFun hd q, ?_, le_refl 1, ?_, ?_, ?_, ?_, ?_⟩
-    · show 1 + (min m n - 1 - 0) = (min m n - 1) + 1
+    · show 1 + (p - 1 - 0) = (p - 1) + 1
       omega
-    · show min m n - 1 < min m n
+    · show p - 1 < p
       omega
     · intro r hr1 hr2
       have hr1' : 1 ≤ r := hr1
-      have hr2' : r ≤ min m n - 1 := hr2
-      have hr : r < min m n := by omega
+      have hr2' : r ≤ p - 1 := hr2
+      have hr : r < p := by omega
       clear hr1 hr2
       rw [hpm r, if_pos hr, hip r, if_pos hr]
       exact ⟨by omega, hr, rfl, rfl⟩
     · intro q hq1 hq2
       rw [hip q, if_pos hq2, hpm q, if_pos hq2]
-      exact ⟨hq1, show q ≤ min m n - 1 by omega, rfl⟩
-    · unfold Sx
-      simp only [hp, dif_pos]
-      exact hS _
-    · show Sx S 0 * ∏ r ∈ Finset.Ico 1 (min m n - 1 + 1), Sx S r = sb ^ (min m n - 0)
-      rw [Nat.sub_zero, hprod, show min m n - 1 + 1 = min m n by omega,
-        ← Finset.prod_eq_prod_Ico_succ_bot hp (Sx S), ← Finset.range_eq_Ico, Finset.prod_range]
-      apply Finset.prod_congr rfl
-      intro i _
-      unfold Sx
-      simp [i.isLt]
+      exact ⟨hq1, show q ≤ p - 1 by omega, rfl⟩
+    · exact hS 0 hp
+    · show Sx S 0 * ∏ r ∈ Finset.Ico 1 (p - 1 + 1), Sx S r = sb ^ (p - 0)
+      rw [Nat.sub_zero, hprod, show p - 1 + 1 = p by omega,
+        ← Finset.prod_eq_prod_Ico_succ_bot hp (Sx S), ← Finset.range_eq_Ico]
 
 end PyPhysim.LinAlg.GmdInv
